@@ -14,7 +14,9 @@ tr == Traces[t]
 Init == t \in 1..Len(Traces) /\ pc = "judge"
 
 Prefix(p, S) == {p \o c : c \in S}
-ObsJoin(a, b) == IF \E j \in 1..Len(tr.runs.all.main) : tr.runs.all.main[j].q = a.q
+\* a row joined with ITSELF ('best' only, see SameFileButRest) is that row again, whatever 'all' joined for the query
+ObsJoin(a, b) == IF SameRecord(a, b) THEN a ELSE
+                 IF \E j \in 1..Len(tr.runs.all.main) : tr.runs.all.main[j].q = a.q
                  THEN tr.runs.all.main[CHOOSE j \in 1..Len(tr.runs.all.main) : tr.runs.all.main[j].q = a.q]
                  ELSE NoRow
 CandsOf(q) == IF \E j \in 1..Len(tr.cands) : tr.cands[j].q = q
@@ -27,6 +29,7 @@ Verdict ==
                \cup C05_File_Failed(R.separate.f1, FALSE) \cup C05_File_Failed(R.all.f1, FALSE)
                \cup C05_File_Failed(R.all.f2, FALSE)
                \cup C05_BestMode_Failed(R.best.main, R.all.f1)
+               \cup C05_BestOfPasses_Failed(R.best.main, R.all.main, R.all.f1, R.all.f2)
                \cup (IF tr.cands = <<>> THEN {}
                      ELSE UNION {IF CandsOf(R.all.f1[j].q) = <<>> THEN {"first_pass_record_without_candidates"}
                                  ELSE C05_Best_Failed(R.all.f1[j], CandsOf(R.all.f1[j].q), tr.peaksCount)
@@ -36,9 +39,11 @@ Verdict ==
         sep == Emit("separate", R.all.f1, R.all.f2, tr.maxDiff * 10, ObsJoin)
         jnd == Emit("joined", R.all.f1, R.all.f2, tr.maxDiff * 10, ObsJoin)
         al  == Emit("all", R.all.f1, R.all.f2, tr.maxDiff * 10, ObsJoin)
+        bst == Emit("best", R.all.f1, R.all.f2, tr.maxDiff * 10, ObsJoin)
         drift == (IF SameFile(sep.main, R.separate.main) /\ SameFile(sep.f1, R.separate.f1) THEN {} ELSE {"separate_mode_files_differ_from_spec"})
                  \cup (IF SameFile(jnd.main, R.joined.main) /\ SameFile(jnd.f1, R.joined.f1) THEN {} ELSE {"joined_mode_files_differ_from_spec"})
                  \cup (IF SameFile(al.main, R.all.main) THEN {} ELSE {"all_mode_main_differs_from_spec"})
+                 \cup (IF SameFileButRest(bst.main, R.best.main) THEN {} ELSE {"best_mode_main_differs_from_spec"})
     IN IF failed \cup drift = {} THEN TRUE ELSE PrintT(ToString(<<"V", t, failed, drift>>))
 
 Report == pc = "judge" /\ Verdict /\ pc' = "reported" /\ UNCHANGED t
